@@ -237,3 +237,131 @@ def judge(R, cell):
                           f'{kw["ChecksumAlgorithm"]!r} although a '
                           f'full-object checksum was supplied'))
     return v
+
+
+# ---------------------------------------------------------------- legacy
+def legacy_allowed():
+    import s3transfer
+    return {'upload': list(s3transfer.S3Transfer.ALLOWED_UPLOAD_ARGS),
+            'download': list(s3transfer.S3Transfer.ALLOWED_DOWNLOAD_ARGS)}
+
+
+def legacy_cells():
+    al = legacy_allowed()
+    out = []
+    names = set()
+    for sh in op_shapes().values():
+        names |= set(sh)
+    for op in ('upload', 'download'):
+        for mode in ('single', 'multi'):
+            for a in al[op]:
+                out.append(('legacy', op, mode, (a,)))
+            out.append(('legacy', op, mode, tuple(al[op])))
+        for n in sorted(names | {'Foo'}):
+            if n not in al[op] and n not in LIB_ARGS:
+                out.append(('legacy', op, 'single', (n,)))
+    return out
+
+
+def run_legacy_cell(cell):
+    from ..legacy import run_legacy_case
+    _, op, mode, args = cell
+    case = {'kind': 'legacy', 'op': op, 'size': 3 if mode == 'single' else 10,
+            'threshold': 8, 'chunk': 4, 'conc': 1, 'attempts': 1,
+            'preexist': None, 'strict': False,
+            'extra': {a: sentinel(a) for a in args}, 'faults': [],
+            'scripts': {}, 'cell': list(cell[:3]) + [sorted(args)]}
+    R = run_legacy_case(case)
+    return case, judge_simple(R, 'legacy:' + op, mode, args,
+                              legacy_allowed()[op])
+
+
+def judge_simple(R, front, mode, args, allowed):
+    """forwarded <=> member of the operation's input shape; identical value;
+    nothing unknown; disallowed names rejected before any request."""
+    shapes = op_shapes()
+    v = []
+    t = R.transfers[0]
+    sent = t.get('extra_sent') or {}
+    calls = list(R.trace.calls)
+    bad = [a for a in args if a not in allowed]
+    o = t['outcome'] or {}
+    if bad:
+        if not isinstance(o.get('exc'), ValueError):
+            v.append((f'c15:{front}:disallowed-not-rejected:{bad[0]}',
+                      f'{front}(extra_args={{{bad[0]!r}:..}}) did not raise '
+                      f'ValueError (got {o})'))
+        if calls:
+            v.append((f'c15:{front}:request-before-rejection',
+                      f'{[c["op"] for c in calls]} issued'))
+        return v
+    if not o.get('ok'):
+        v.append((f'c15:{front}:{mode}:transfer-failed',
+                  f'args {args}: {o}'))
+        return v
+    for c in calls:
+        op = c['op']
+        if op == 'abort_multipart_upload':
+            continue
+        shape = shapes[OPS[op]]
+        kw = c['kwargs']
+        unknown = [n for n in c['names'] if n not in shape]
+        if unknown:
+            v.append((f'c15:{front}:{mode}:{op}:unknown-parameter:'
+                      f'{",".join(sorted(unknown))}',
+                      f'{op} received {unknown}, not in its input shape'))
+        for a in args:
+            want = a in shape
+            has = a in kw
+            if want and not has:
+                v.append((f'c15:{front}:{mode}:{op}:not-forwarded:{a}',
+                          f'{a} is a member of {OPS[op]} but {op} did not '
+                          f'receive it'))
+            elif want and kw[a] is not sent[a]:
+                v.append((f'c15:{front}:{mode}:{op}:modified:{a}',
+                          f'{op} received {a}={kw[a]!r}'))
+    return v
+
+
+# ---------------------------------------------------------------- pool
+def pp_cells():
+    from s3transfer.constants import ALLOWED_DOWNLOAD_ARGS
+    al = list(ALLOWED_DOWNLOAD_ARGS)
+    out = []
+    names = set()
+    for sh in op_shapes().values():
+        names |= set(sh)
+    for mode in ('single', 'multi'):
+        for provided in (False, True):
+            for a in al:
+                out.append(('pp', mode, provided, (a,)))
+            out.append(('pp', mode, provided, tuple(al)))
+    for n in sorted(names | {'Foo'}):
+        if n not in al and n not in LIB_ARGS:
+            out.append(('pp', 'single', False, (n,)))
+    return out
+
+
+def run_pp_cell(cell):
+    from ..pp import run_pp_case
+    from s3transfer.constants import ALLOWED_DOWNLOAD_ARGS
+    _, mode, provided, args = cell
+    extra = {a: sentinel(a) for a in args}
+    case = {'cfg': {'multipart_threshold': 8, 'multipart_chunksize': 4,
+                    'workers': 1}, 'strict': False,
+            'downloads': [{'size': 3 if mode == 'single' else 10,
+                           'preexist': None, 'expected_size': provided,
+                           'extra': extra}],
+            'faults': [], 'scripts': {}, 'cancels': [],
+            'end': {'how': 'shutdown', 'wait_results': True},
+            'sched': {'mode': 'walk', 'choices': []},
+            'cell': ['pp', mode, provided, sorted(args)]}
+    R = run_pp_case(case)
+    if R.harness_error is not None:
+        raise R.harness_error
+    t = R.transfers[0]
+    t['extra_sent'] = extra
+    if t.get('submit_exc') is not None:
+        t['outcome'] = {'ok': False, 'exc': t['submit_exc']}
+    return case, judge_simple(R, 'processpool', mode, args,
+                              list(ALLOWED_DOWNLOAD_ARGS))
